@@ -56,19 +56,27 @@ pub fn before_lock(m: &parking_lot::Mutex<()>) {
 }
 pub struct LockScope(usize);
 impl LockScope {
+    /// reports the acquisition only if the mutex really is held (so that a missing `lock()` call
+    /// is not masked by the instrumentation)
     #[inline]
     pub fn new(m: &parking_lot::Mutex<()>) -> Self {
         let a = m as *const _ as usize;
-        if let Some(h) = hooks() {
-            (h.locked)(a)
+        if m.is_locked() {
+            if let Some(h) = hooks() {
+                (h.locked)(a)
+            }
+            LockScope(a)
+        } else {
+            LockScope(0)
         }
-        LockScope(a)
     }
 }
 impl Drop for LockScope {
     fn drop(&mut self) {
-        if let Some(h) = hooks() {
-            (h.unlocking)(self.0)
+        if self.0 != 0 {
+            if let Some(h) = hooks() {
+                (h.unlocking)(self.0)
+            }
         }
     }
 }
@@ -221,6 +229,61 @@ macro_rules! traced_int {
                 atomic(self.a(), CAS, s, f);
                 self.0.compare_exchange(c, n, s, f)
             }
+            pub fn compare_exchange_weak(
+                &self,
+                c: $prim,
+                n: $prim,
+                s: Ordering,
+                f: Ordering,
+            ) -> Result<$prim, $prim> {
+                atomic(self.a(), CAS, s, f);
+                self.0.compare_exchange_weak(c, n, s, f)
+            }
+            pub fn swap(&self, v: $prim, o: Ordering) -> $prim {
+                atomic(self.a(), RMW, o, o);
+                self.0.swap(v, o)
+            }
+            pub fn fetch_and(&self, v: $prim, o: Ordering) -> $prim {
+                atomic(self.a(), RMW, o, o);
+                self.0.fetch_and(v, o)
+            }
+            pub fn fetch_or(&self, v: $prim, o: Ordering) -> $prim {
+                atomic(self.a(), RMW, o, o);
+                self.0.fetch_or(v, o)
+            }
+            pub fn fetch_xor(&self, v: $prim, o: Ordering) -> $prim {
+                atomic(self.a(), RMW, o, o);
+                self.0.fetch_xor(v, o)
+            }
+            pub fn fetch_max(&self, v: $prim, o: Ordering) -> $prim {
+                atomic(self.a(), RMW, o, o);
+                self.0.fetch_max(v, o)
+            }
+            pub fn fetch_min(&self, v: $prim, o: Ordering) -> $prim {
+                atomic(self.a(), RMW, o, o);
+                self.0.fetch_min(v, o)
+            }
+            pub fn fetch_update<F: FnMut($prim) -> Option<$prim>>(
+                &self,
+                set: Ordering,
+                fetch: Ordering,
+                mut f: F,
+            ) -> Result<$prim, $prim> {
+                let mut prev = self.load(fetch);
+                while let Some(next) = f(prev) {
+                    match self.compare_exchange_weak(prev, next, set, fetch) {
+                        x @ Ok(_) => return x,
+                        Err(next_prev) => prev = next_prev,
+                    }
+                }
+                Err(prev)
+            }
+            pub fn get_mut(&mut self) -> &mut $prim {
+                self.0.get_mut()
+            }
+            pub fn into_inner(self) -> $prim {
+                self.0.into_inner()
+            }
         }
     };
 }
@@ -273,18 +336,55 @@ impl<T> AtomicPtr<T> {
         atomic(self.a(), CAS, s, f);
         self.0.compare_exchange(c, n, s, f)
     }
+    pub fn compare_exchange_weak(
+        &self,
+        c: *mut T,
+        n: *mut T,
+        s: Ordering,
+        f: Ordering,
+    ) -> Result<*mut T, *mut T> {
+        atomic(self.a(), CAS, s, f);
+        self.0.compare_exchange_weak(c, n, s, f)
+    }
+    pub fn fetch_update<F: FnMut(*mut T) -> Option<*mut T>>(
+        &self,
+        set: Ordering,
+        fetch: Ordering,
+        mut f: F,
+    ) -> Result<*mut T, *mut T> {
+        let mut prev = self.load(fetch);
+        while let Some(next) = f(prev) {
+            match self.compare_exchange_weak(prev, next, set, fetch) {
+                x @ Ok(_) => return x,
+                Err(next_prev) => prev = next_prev,
+            }
+        }
+        Err(prev)
+    }
+    pub fn new(p: *mut T) -> Self {
+        Self(std::sync::atomic::AtomicPtr::new(p))
+    }
+    pub fn get_mut(&mut self) -> &mut *mut T {
+        self.0.get_mut()
+    }
     pub fn into_inner(self) -> *mut T {
         self.0.into_inner()
     }
 }
 
 /// traced thread handle
-#[derive(Debug)]
+#[derive(Debug, Clone)]
 pub struct Thread(std::thread::Thread);
 impl Thread {
     pub fn unpark(&self) {
         unpark(&self.0);
         self.0.unpark()
+    }
+    pub fn id(&self) -> std::thread::ThreadId {
+        self.0.id()
+    }
+    pub fn name(&self) -> Option<&str> {
+        self.0.name()
     }
 }
 pub fn current() -> Thread {
